@@ -26,6 +26,7 @@ from .scenariomanager import ScenarioManagerHybrid
 from .scenariorunners import HybridRunner
 from .scenariorunners import SdRunner
 from .util.didyoumean import didyoumean
+from .util.floating_point import normalize, scale
 from .visualizations import visualizer
 
 
@@ -551,8 +552,9 @@ class bptk():
         self.session_state["settings_log"][step] = settings
         self.session_state["results_log"][step] = simulation_results
 
-        # move session step forward
-        self.session_state["step"]=step+dt
+        # move session step forward, staying on the decimal grid (a bare step+dt drifts: 0.30000000000000004, 0.7999999999999999)
+        starttime = self.session_state["starttime"]
+        self.session_state["step"]=normalize(step+dt, base=dt, offset=starttime, precision=max(scale(starttime), scale(dt)))
 
         return flat_results if flat else simulation_results
 
